@@ -102,6 +102,17 @@ impl Dependencies for Deps {
     }
 }
 
+/// `find ARGS` in process without a sandbox context (fuzz targets): stdout captured, stderr left
+/// alone, panics propagate.
+pub fn find_plain(args: &[&str]) -> (i32, Vec<u8>) {
+    let deps = Deps { out: RefCell::new(Vec::new()), now: SystemTime::UNIX_EPOCH + Duration::from_secs(2_000_000_000) };
+    let mut argv: Vec<&str> = vec!["find"];
+    argv.extend_from_slice(args);
+    let st = find_main(&argv, &deps);
+    let out = std::mem::take(&mut *deps.out.borrow_mut());
+    (st, out)
+}
+
 pub struct BinOut {
     pub code: Option<i32>,
     pub signal: Option<i32>,
